@@ -251,6 +251,7 @@ func c16(c *an.Check) {
 		}
 	}
 	c.Require(freshInner && nInner == 1, "LOOPALLOC", "envelope.BuildEnvelope starts each grant with an empty share list", build, "", nInner, "the grant body is allocated inside the per-grant loop", "the grant body is allocated once outside the per-grant loop: later grants would also carry the shares of earlier ones")
+	thoroughCallers(c, "envelope unsealing", 0, []string{"envelope"}, an.R("envelope", "", "UnlockEnvelope"), an.R("envelope", "", "BuildEnvelope"))
 	c.Note("C16 decides structure only; the exact counting ('exactly when') over configurations is a value-level statement")
 	_ = fmt.Sprint
 }
